@@ -56,6 +56,12 @@ func init() { log.SetOutput(io.Discard) }
 // NewWorld creates the scratch directory and simulator objects (inside the bubble).
 func NewWorld(t *testing.T, c *sim.Case, res *sim.Result) *World {
 	worldSeq++
+	curValueScale = c.CfgInt("value_scale", 1)
+	if curValueScale < 1 || c.CfgInt("memtable_size", 2048) < 1<<20 {
+		// (an entry larger than the whole memtable makes SetBatch rotate memtables
+		// forever - a configuration the engine does not guard against; not explored)
+		curValueScale = 1
+	}
 	dir := filepath.Join(sim.Scratch(), fmt.Sprintf("w%d", worldSeq))
 	_ = os.RemoveAll(dir)
 	_ = os.MkdirAll(dir, 0o755)
@@ -75,7 +81,9 @@ func (w *World) Options(dir string) *NoKV.Options {
 	if c.CfgInt("memtable_art", 0) == 1 {
 		opt.MemTableEngine = NoKV.MemTableEngineART
 	}
-	opt.SSTableMaxSz = 1 << 20
+	// small table targets make compactions split their output into several tables
+	// (in the middle of a key's version chain, between keys, ...)
+	opt.SSTableMaxSz = c.CfgInt("sst_max", 1<<20)
 	opt.ValueThreshold = c.CfgInt("value_threshold", 64)
 	opt.ValueLogFileSize = int(c.CfgInt("vlog_file_size", 4096))
 	opt.ValueLogBucketCount = int(c.CfgInt("vlog_buckets", 2))
@@ -397,6 +405,11 @@ func GenL0Layout(r *sim.Rand, nkeys int, cf int64) []sim.Op {
 	} else {
 		ops = append(ops, sim.Op{K: "compactonce", A: int64(r.Intn(2))})
 	}
+	if r.Intn(2) == 0 {
+		// ... and a drain of the ingest buffer into the level's sorted run: the first
+		// table whose file id was handed out by a compaction, not by a memtable
+		ops = append(ops, sim.Op{K: "compact", A: 6, B: 1, C: int64(r.Intn(3)), D: int64(r.Intn(2))})
+	}
 	return ops
 }
 
@@ -416,13 +429,23 @@ func GenCfg(r *sim.Rand) map[string]int64 {
 		"batch_wait_us":    r.Pick64(0, 200),
 		"arena_size":       r.Pick64(1<<20, 1<<20, 1<<20, 1<<20, 1<<20, 1<<20, 1<<20, 1<<20, 1<<20, 2<<20, 0),
 		"hot_routing":      r.Pick64(0, 0, 1),
+		"sst_max":          r.Pick64(1<<20, 1<<20, 1<<20, 2048, 512),
+		"value_scale":      r.Pick64(1, 1, 1, 16, 48),
 	}
 }
 
 // MakeValue builds a value of the coded length whose content names its write.
+// curValueScale multiplies value lengths for the current run (set by NewWorld
+// from the "value_scale" knob; runs are sequential inside a worker process).
+// With inline values of a few KiB a key's version chain spans several 8 KiB
+// blocks, tables have many blocks and compactions split their output.
+var curValueScale int64 = 1
+
 func MakeValue(tag string, lenCode int64, threshold int64) []byte {
+	scale := int64(1)
 	if threshold > 4096 {
 		threshold = 64
+		scale = curValueScale // only inline values are scaled (a value pointer is small anyway)
 	}
 	var n int64
 	switch lenCode % 6 {
@@ -441,6 +464,9 @@ func MakeValue(tag string, lenCode int64, threshold int64) []byte {
 	}
 	if n == 0 {
 		return []byte{}
+	}
+	if n > 1 {
+		n *= scale
 	}
 	b := make([]byte, n)
 	for i := range b {
